@@ -70,6 +70,11 @@ class Contract(object):
         for k, d in loops.items():
             d["inv"].sort(key=lambda f: f.lineno)
             self.loops[k] = LoopSpec(d["inv"], d["var"], self.loop_headers.get(k))
+        ga = {}
+        for text, names in dict(getattr(self.cls, "ghost_asserts", {})).items():
+            names = names if isinstance(names, (list, tuple)) else [names]
+            ga[" ".join(text.split())] = [fns[n] for n in names]
+        self.ghost_asserts = ga
         for k, u in self.loop_unroll.items():
             self.loops.setdefault(k, LoopSpec()).unroll = u
         return self
